@@ -47,6 +47,7 @@ type c16Actor struct {
 	entered   chan uint32 // Activate entered with this object id (nil: activate at once)
 	proceed   chan bool   // what Activate returns
 	gate      chan struct{}
+	onTerm    func() // what the termination hook does besides counting (nil: nothing)
 }
 
 func (a *c16Actor) Activate(act bus.Activation, h pong.PingPongSignalHelper) error {
@@ -61,7 +62,15 @@ func (a *c16Actor) Activate(act bus.Activation, h pong.PingPongSignalHelper) err
 	}
 	return nil
 }
-func (a *c16Actor) OnTerminate() { a.mu.Lock(); a.hooks++; a.mu.Unlock() }
+func (a *c16Actor) OnTerminate() {
+	a.mu.Lock()
+	a.hooks++
+	f := a.onTerm
+	a.mu.Unlock()
+	if f != nil {
+		f() // a termination hook that calls back into the service (c16HookReenters)
+	}
+}
 func (a *c16Actor) Hello(s string) (string, error) {
 	a.mu.Lock()
 	g := a.gate
@@ -528,6 +537,20 @@ func (r *c16Run) opAddBeginOf(k, prev int, seed int64) {
 	r.record(fmt.Sprintf("PAddBegin %d %s", k, hx.NList(r.draws(seed))), obs, desc)
 }
 
+// A wait that ran into its deadline has been reported as a failure with its input.  The case ends
+// there (what follows it would be judged on a service in an unknown state), and once three waits
+// have expired in a run the remaining ones use a short deadline: the violation is established, the
+// rest of the run only adds detail and must not take minutes.
+var c16Expired int
+
+func c16Wait(d time.Duration) time.Duration {
+	if c16Expired >= 3 {
+		return 300 * time.Millisecond
+	}
+	return d
+}
+func (r *c16Run) expired() { c16Expired++; r.dead = true }
+
 func (r *c16Run) fail(kind, detail, key string) {
 	if key == "" {
 		key = r.taint
@@ -752,8 +775,9 @@ func (r *c16Run) opSend(f c16Frame) {
 		r.enq[owner]++
 		if !held {
 			// wait for the mailbox goroutine itself: it has finished this mail (and every earlier one)
-			if !r.actors[owner].waitProcessed(r.enq[owner], 5*time.Second) {
+			if !r.actors[owner].waitProcessed(r.enq[owner], c16Wait(5*time.Second)) {
 				r.fail("mailbox-stalled", fmt.Sprintf("the mailbox of actor %d did not finish %s within 5 s: %s", owner, desc, r.trace()), "")
+				r.expired()
 			}
 		}
 	}
@@ -767,9 +791,10 @@ func (r *c16Run) opSend(f c16Frame) {
 	deferred := false
 	var reply *net.Message
 	if !held && !f.post && !noAnswer {
-		reply = r.env.conns[f.conn].waitID(f.id, 3*time.Second)
+		reply = r.env.conns[f.conn].waitID(f.id, c16Wait(3*time.Second))
 		if reply == nil {
 			r.fail("call-unanswered", fmt.Sprintf("no answer within 3 s to %s: %s", desc, r.trace()), "")
+			r.expired()
 		}
 	}
 	if !held && f.post {
@@ -823,12 +848,15 @@ func (r *c16Run) opDrain(k int) {
 	a.mu.Lock()
 	close(a.gate)
 	a.mu.Unlock()
-	if !a.waitProcessed(r.enq[k], 5*time.Second) {
+	if !a.waitProcessed(r.enq[k], c16Wait(5*time.Second)) {
 		r.fail("mailbox-stalled", fmt.Sprintf("the released mailbox of actor %d did not finish its %d mails within 5 s: %s", k, r.enq[k], r.trace()), "")
+		r.expired()
 	}
 	for _, q := range r.queuedOf[k] {
-		if r.env.conns[q[0]].waitSeen(q[1], 3*time.Second) == nil {
+		if r.env.conns[q[0]].waitSeen(q[1], c16Wait(3*time.Second)) == nil {
 			r.fail("call-unanswered", fmt.Sprintf("a call (message id %d) queued in the mailbox of actor %d got no answer within 3 s after the mailbox was released: %s", q[1], k, r.trace()), "")
+			r.expired()
+			break
 		}
 	}
 	r.queuedOf[k] = nil
@@ -1503,7 +1531,7 @@ func c16Shared(res *hx.Result, rng *hx.Rng, rounds int) {
 			uid := r.nextUID
 			r.nextUID++
 			r.env.conns[conn].send(net.Call, m[via].sid, m[via].id, 0, mid, append(svU32(0, 102), svU32(uid, 0)...))
-			rep := r.env.conns[conn].waitID(mid, 3*time.Second)
+			rep := r.env.conns[conn].waitID(mid, c16Wait(3*time.Second))
 			note("connection %d subscribes to signal 102 through (service %d, object %d), message id %d", conn, m[via].sid, m[via].id, mid)
 			if rep == nil || rep.Header.Type != net.Reply {
 				fail("live-object-not-callable", "registerEvent sent to a live identifier of the object was not accepted")
@@ -1521,12 +1549,13 @@ func c16Shared(res *hx.Result, rng *hx.Rng, rounds int) {
 			r.nextMsg++
 			_, before := a.counts()
 			r.env.conns[conn].send(net.Call, m[i].sid, m[i].id, c16Hello, mid, svStr("x"))
-			rep := r.env.conns[conn].waitID(mid, 3*time.Second)
+			rep := r.env.conns[conn].waitID(mid, c16Wait(3*time.Second))
 			_, after := a.counts()
 			note("call hello(service %d, object %d)", m[i].sid, m[i].id)
 			switch {
 			case rep == nil:
 				fail("call-unanswered", "no answer within 3 s")
+				c16Expired++
 			case wantExec && (rep.Header.Type != net.Reply || after != before+1):
 				fail("live-object-not-callable", "the object is live under (service %d, object %d) but the call was answered with type code %d, executions %d -> %d", m[i].sid, m[i].id, svTypeCode(rep), before, after)
 			case !wantExec && (svTypeCode(rep) != 1 || after != before):
@@ -1644,6 +1673,188 @@ func c16Shared(res *hx.Result, rng *hx.Rng, rounds int) {
 		r.finish()
 		res.Count(fmt.Sprintf("shared %d %v", round, two), true)
 		res.Dist(fmt.Sprintf("one-object-two-memberships:two-services=%v", two))
+	}
+}
+
+// ---------- termination hooks that call back into the service (oracles only) ----------
+
+func c16NewActor(k int) *c16Actor {
+	a := &c16Actor{k: k}
+	a.cond = sync.NewCond(&a.mu)
+	return a
+}
+
+// c16HookReenters: the termination hook of an owner object uses the service it is being removed
+// from — it removes a child object (round%3 == 0), adds a new object (1), or hands its own object
+// value to Add again, so that its second life begins inside the hook of the first (2).  Oracles:
+// Service.Remove returns; the hook ran once per removal; the owner's subscriber is told once; the
+// old identifier is refused; an unrelated object still answers; the child is terminated and refused
+// / the new object answers / the owner answers under its new identifier and its second life ends
+// like the first (hook once more, its new subscriber told, refused afterwards).
+func c16HookReenters(res *hx.Result, rng *hx.Rng, rounds int) {
+	for round := 0; round < rounds; round++ {
+		r, err := c16NewRun(res, rng)
+		if err != nil {
+			res.Fail("harness-setup", err.Error())
+			return
+		}
+		variant := round % 3
+		var steps []string
+		note := func(f string, a ...interface{}) { steps = append(steps, fmt.Sprintf(f, a...)) }
+		fail := func(kind, f string, a ...interface{}) {
+			res.Fail(kind, fmt.Sprintf(f, a...)+" — after: "+strings.Join(steps, " ; "))
+		}
+		owner, child, other, extra := c16NewActor(200), c16NewActor(201), c16NewActor(202), c16NewActor(203)
+		ownerObj := c16Object(owner)
+		add := func(name string, o bus.Actor) (uint32, bool) {
+			rand.Seed(r.nextSeed)
+			r.nextSeed++
+			id, err := r.svc.Add(o)
+			note("Add(%s) -> %d, err=%v", name, id, err != nil)
+			if err != nil {
+				fail("add-refused", "Add(%s) failed: %v", name, err)
+			}
+			return id, err == nil
+		}
+		// call: the method of actor a under identifier id must run (want) or be refused with ObjectNotFound
+		call := func(id uint32, a *c16Actor, want bool) {
+			mid := r.nextMsg
+			r.nextMsg++
+			_, before := a.counts()
+			r.env.conns[1].send(net.Call, r.sid, id, c16Hello, mid, svStr("x"))
+			rep := r.env.conns[1].waitID(mid, c16Wait(3*time.Second))
+			_, after := a.counts()
+			note("call hello(object %d)", id)
+			switch {
+			case rep == nil:
+				fail("call-unanswered", "no answer within 3 s")
+				c16Expired++
+			case want && (rep.Header.Type != net.Reply || after != before+1):
+				fail("live-object-not-callable", "object %d is live but the call was answered with type code %d, executions %d -> %d", id, svTypeCode(rep), before, after)
+			case !want && (svTypeCode(rep) != 1 || after != before):
+				fail("reachable-after-removal", "object %d was removed but a call to it was answered with type code %d, executions %d -> %d", id, svTypeCode(rep), before, after)
+			}
+		}
+		subscribe := func(id uint32, conn int) uint32 {
+			mid := r.nextMsg
+			r.nextMsg++
+			r.env.conns[conn].send(net.Call, r.sid, id, 0, mid, append(svU32(0, 102), svU32(r.nextUID, 0)...))
+			r.nextUID++
+			rep := r.env.conns[conn].waitID(mid, c16Wait(3*time.Second))
+			note("connection %d subscribes to signal 102 of object %d, message id %d", conn, id, mid)
+			if rep == nil || rep.Header.Type != net.Reply {
+				fail("live-object-not-callable", "registerEvent sent to live object %d was not accepted", id)
+			}
+			return mid
+		}
+		notices := func(conn int, mid uint32) int { // termination notices received for a subscription so far
+			r.env.conns[conn].sync()
+			n := 0
+			r.env.conns[conn].mu.Lock()
+			for i := range r.env.conns[conn].got {
+				fm := &r.env.conns[conn].got[i]
+				if fm.Header.ID == mid && fm.Header.Type == net.Error && svTypeCode(fm) == 2 {
+					n++
+				}
+			}
+			r.env.conns[conn].mu.Unlock()
+			return n
+		}
+		remove := func(id uint32) bool {
+			done := make(chan error, 1)
+			go func() { done <- r.svc.Remove(id) }()
+			select {
+			case err := <-done:
+				note("Service.Remove(%d) -> err=%v", id, err != nil)
+				if err != nil {
+					fail("remove-refused", "Remove of live object %d failed: %v", id, err)
+				}
+				return err == nil
+			case <-time.After(c16Wait(5 * time.Second)):
+				note("Service.Remove(%d)", id)
+				fail("remove-stalled", "Service.Remove(%d) did not return within 5 s: the termination hook of the object calls back into the service", id)
+				c16Expired++
+				return false
+			}
+		}
+		func() {
+			idO, ok1 := add("owner", ownerObj)
+			idC, ok2 := add("child", c16Object(child))
+			idX, ok3 := add("other", c16Object(other))
+			if !ok1 || !ok2 || !ok3 {
+				return
+			}
+			var newID uint32
+			var hookErr error
+			ran := 0
+			owner.mu.Lock()
+			owner.onTerm = func() {
+				ran++
+				if ran > 1 {
+					return
+				}
+				switch variant {
+				case 0:
+					hookErr = r.svc.Remove(idC)
+				case 1:
+					rand.Seed(r.nextSeed)
+					newID, hookErr = r.svc.Add(c16Object(extra))
+				case 2:
+					rand.Seed(r.nextSeed)
+					newID, hookErr = r.svc.Add(ownerObj)
+				}
+			}
+			owner.mu.Unlock()
+			note("the termination hook of the owner will %s", [...]string{"remove the child with Service.Remove", "add a new object with Service.Add", "hand the owner's own object value to Service.Add again"}[variant])
+			mid := subscribe(idO, 0)
+			call(idO, owner, true)
+			if !remove(idO) {
+				return
+			}
+			if hookErr != nil {
+				fail("hook-call-refused", "the service refused the call made by the termination hook: %v", hookErr)
+				return
+			}
+			if h, _ := owner.counts(); h != 1 {
+				fail("hook-not-run", "the termination hook of the owner has run %d times after its removal", h)
+			}
+			if n := notices(0, mid); n != 1 {
+				fail("subscriber-not-told", "the subscriber (connection 0, message id %d) of the removed owner received %d termination notices", mid, n)
+			}
+			call(idO, owner, false)
+			call(idX, other, true)
+			switch variant {
+			case 0:
+				if h, _ := child.counts(); h != 1 {
+					fail("hook-not-run", "the child was removed by the owner's hook; its own termination hook has run %d times", h)
+				}
+				call(idC, child, false)
+			case 1:
+				call(newID, extra, true)
+				call(idC, child, true)
+			case 2:
+				note("the hook's Add returned %d", newID)
+				call(newID, owner, true)
+				mid2 := subscribe(newID, 2)
+				if !remove(newID) {
+					return
+				}
+				if h, _ := owner.counts(); h != 2 {
+					fail("hook-not-run", "the owner's object value lived twice and was removed twice; its termination hook has run %d times", h)
+				}
+				if n := notices(2, mid2); n != 1 {
+					fail("subscriber-not-told", "the subscriber (connection 2, message id %d) of the owner's second life received %d termination notices", mid2, n)
+				}
+				if n := notices(0, mid); n != 1 {
+					fail("subscriber-told-twice", "the subscriber of the first life has %d termination notices after the end of the second", n)
+				}
+				call(newID, owner, false)
+				call(idC, child, true)
+			}
+		}()
+		r.finish()
+		res.Count(fmt.Sprintf("hook-reenters %d", round), true)
+		res.Dist(fmt.Sprintf("termination-hook-calls-the-service:variant=%d", variant))
 	}
 }
 
@@ -1916,6 +2127,7 @@ func runC16(res *hx.Result, rng *hx.Rng, tier string, outdir string) {
 	c16SecondLives(res, rng, cf, tier)
 	cf.Flush()
 	c16Shared(res, rng, map[bool]int{false: 12, true: 60}[tier == "thorough"])
+	c16HookReenters(res, rng, map[bool]int{false: 6, true: 30}[tier == "thorough"])
 	rounds := 40
 	if tier == "thorough" {
 		rounds = 400
